@@ -314,6 +314,124 @@ def rule_r4(facts, col):
             col.ok("C04.R4", key, body.where(), "true only behind the true edge of eof() of each of %s" % ins)
 
 
+def used_derived_fns(facts):
+    """Local functions whose return value is data-derived from the ring's fill counter BufferState.used
+    (flow-insensitive taint; closures passed to a call taint its result when they read `used`)."""
+    STATE = "circular_buffer::BufferState"
+    derived = set()
+    reads_used = {}
+    for b in facts.bodies:
+        r = False
+        for blk in b.blocks:
+            for st in blk["stmts"]:
+                if st["k"] == "assign" and _place_reads_used(st["rv"], STATE):
+                    r = True
+        reads_used[b.path] = r
+    changed = True
+    while changed:
+        changed = False
+        for b in facts.bodies:
+            if b.q in derived or b.kind == "closure":
+                continue
+            tainted = set()
+            ch = True
+            while ch:
+                ch = False
+                for blk in b.blocks:
+                    for st in blk["stmts"]:
+                        if st["k"] != "assign":
+                            continue
+                        rv = st["rv"]
+                        src = _place_reads_used(rv, STATE) or any(_op_local(o) in tainted for o in _rv_ops(rv)) or \
+                            (rv["k"] in ("ref", "discr") and rv["p"]["l"] in tainted)
+                        if src and st["dst"]["l"] not in tainted:
+                            tainted.add(st["dst"]["l"])
+                            ch = True
+                    t = blk["term"]
+                    if t["k"] == "call":
+                        qs = Body.callee_qs(t)
+                        src = any(q in derived for q in qs) or any(_op_local(a) in tainted for a in t["args"])
+                        if not src:
+                            # closure argument that reads `used`
+                            for a in t["args"]:
+                                e = b.operand_expr(a)
+                                for x in walk(e):
+                                    if x.k == "agg" and x.ak == "closure" and reads_used.get(x.q):
+                                        src = True
+                        if src and t["dst"]["l"] not in tainted:
+                            tainted.add(t["dst"]["l"])
+                            ch = True
+            if 0 in tainted:
+                derived.add(b.q)
+                changed = True
+    return derived
+
+
+def _place_reads_used(rv, STATE):
+    def pl(p):
+        return any(isinstance(x, dict) and x.get("n") == "used" and x.get("o") == STATE for x in p["p"])
+    for o in _rv_ops(rv):
+        p = o.get("c") or o.get("m")
+        if p is not None and pl(p):
+            return True
+    if rv["k"] in ("ref", "discr") and pl(rv["p"]):
+        return True
+    return False
+
+
+def _rv_ops(rv):
+    k = rv["k"]
+    if k in ("use", "un", "cast", "repeat"):
+        return [rv["a"]]
+    if k == "bin":
+        return [rv["a"], rv["b"]]
+    if k == "agg":
+        return rv["ops"]
+    return []
+
+
+def _op_local(o):
+    p = o.get("c") or o.get("m")
+    return p["l"] if p is not None else None
+
+
+def rule_r6(facts, col, cg=None):
+    """C04.R6 the buffered-amount reads that verdicts rely on are derived from the fill counter `used`
+    (never from rpos == wpos, which cannot tell an empty ring from a full one)"""
+    cg = cg or CallGraph(facts)
+    locking = locking_fns(facts, cg)
+    derived = used_derived_fns(facts)
+    for body in verdict_functions(facts):
+        if body.self_adt not in ("stream::ReadStream", "stream::WriteStream"):
+            continue
+        for bb, t in body.calls():
+            qs = [q for q in Body.callee_qs(t) if q in locking and q.startswith("circular_buffer::")]
+            if not qs:
+                continue
+            key = "%s:%s" % (body.q, t["f"]["name"])
+            if any(q in derived for q in qs):
+                col.ok("C04.R6", key, body.where(bb), "amount read %s derives from BufferState.used" % qs[0])
+            else:
+                col.bad("C04.R6", key, body.where(bb),
+                        "the verdict relies on %s, whose result is not derived from the fill counter BufferState.used: "
+                        "positions alone (rpos == wpos) cannot distinguish an empty ring from a completely full one, so a "
+                        "full buffer of committed samples is reported as end-of-stream" % qs[0], {})
+    STATE = "circular_buffer::BufferState"
+    for b in facts.bodies:
+        for bbi, blk in enumerate(b.blocks):
+            for st in blk["stmts"]:
+                if st["k"] == "assign" and st["rv"]["k"] == "bin" and st["rv"]["op"] in ("Eq", "Ne"):
+                    names = set()
+                    for o in (st["rv"]["a"], st["rv"]["b"]):
+                        e = peel(b.operand_expr(o), through_try=False)
+                        if e.k == "field" and e.owner == STATE:
+                            names.add(e.name)
+                    if names == {"rpos", "wpos"}:
+                        col.bad("C04.R6", "%s:rpos==wpos" % b.q, "%s:%d" % (st["sp"]["f"], st["sp"]["l"]),
+                                "fill state inferred from rpos == wpos: ambiguous between empty and full (the `used` counter "
+                                "exists for exactly this reason)", {})
+
+
 def run(ctx):
     facts = ctx.facts("default")
     cg = CallGraph(facts)
@@ -323,6 +441,8 @@ def run(ctx):
     rule_r2(facts, ctx, cg)
     rule_r3(facts, ctx)
     rule_r4(facts, ctx)
+    rule_r6(facts, ctx, cg)
+    ctx.floor("C04.R6", 3, "amount reads in ReadStream::{wait_for_read,eof}, WriteStream::wait_for_write")
     ctx.floor("C04.R1", 3, "liveness reads in read-end methods that also read the amount: ReadStream::{wait_for_read,eof}, NCReadStream::{wait,eof}")
     ctx.floor("C04.R2", 10, "verdict definitions in wait/closed/eof of the four stream ends")
     ctx.floor("C04.R3", 3, "timed condvar waits: Buffer::wait_for_read, Buffer::wait_for_write, NCReadStream::wait")
